@@ -8,7 +8,9 @@ def run(tier, seed, replay_path=None):
     if replay_path:
         return generic_replay(ck, replay_path)
     ck.engine()
+    from . import ttl_bmc
     run_store_checks(ck, ['delete', 'flush', 'set'], {'kind', 'vis', 'deadline', 'frame', 'value'}, K=2, tier=tier)
+    ttl_bmc.run(ck, tier, {'flush'})
     return ck.finish()
 
 
